@@ -331,6 +331,40 @@ def candidate_random(rng, count, it_rng=True):
     yield f"CANDIDATE {pstr(P)} mult=1 var=0 it=1 rev=0 peaks=10 REF={mapstr(1, 100000, 0, [10, 5000, 9000])} QRY={mapstr(7, 8991, 0, [0, 8990])}"
 
 
+
+def candidate_ties(rng, count):
+    """molecules with COINCIDENT labels (two or three sites at one coordinate — legal CMAP input) on the reference, on the
+    query, or on both at the same place, under a dense ladder of seed peaks so that overlapping segments with tied pairs
+    reach the chainer and the conflict resolver"""
+    for _ in range(count):
+        P = rand_params(rng)
+        R = make_reference(rng, rng.randrange(12, 40), rng.choice([3000, 9000]), rng.choice([200, 500, 2000]))
+        Q, off, _ = make_query(rng, R, noisy=rng.random() < 0.5)
+        shape = rng.choice(["ref", "qry", "both", "both-same-place"])
+        def dup(xs, j, k):
+            return xs[:j] + [xs[j]] * k + xs[j:]
+        if shape in ("ref", "both"):
+            for _ in range(rng.randrange(1, 4)):
+                R = dup(R, rng.randrange(0, len(R)), rng.choice([1, 1, 2]))
+        if shape in ("qry", "both"):
+            for _ in range(rng.randrange(1, 3)):
+                Q = dup(Q, rng.randrange(0, len(Q)), rng.choice([1, 1, 2]))
+        if shape == "both-same-place":
+            j = rng.randrange(0, len(Q))
+            want = Q[j] + off
+            near = min(range(len(R)), key=lambda i: abs(R[i] - want))
+            Q = dup(Q, j, 1)
+            R = dup(R, near, 1)
+        rev = rng.randrange(2)
+        if rev:
+            Q = mirror(Q)
+        peaks = ladder(rng, off, dense=rng.random() < 0.5)
+        mult = rng.choice(["1", "1", "1/2", "0"])
+        rlen = R[-1] + 1 + rng.randrange(0, 3000)
+        yield (f"CANDIDATE {pstr(P)} mult={mult} var={rng.choice([0, 0, 1])} it={rng.randrange(1, 9)} rev={rev} "
+               f"peaks={','.join(map(str, peaks))} REF={mapstr(1, rlen, 0, R)} QRY={mapstr(7, Q[-1] + 1, 0, Q)}")
+
+
 def candidate_lattice(rng, count):
     """dense small lattice: tiny coordinates, md in {1,2}, two or three peaks -> many conflicts"""
     for _ in range(count):
